@@ -139,6 +139,7 @@ type Engine struct {
 	pristineMu  sync.Mutex
 	pristine    map[*ssa.Package]map[*ssa.Global]*Value
 	violations  int64
+	untagged    int64
 	panicChecks int64
 	forkSites   map[string]int
 	startPrefix []int
@@ -151,6 +152,7 @@ type Config struct {
 	AssertTimeoutMS int
 	MaxSteps        int64
 	MaxPaths        int64
+	MaxViolations   int64
 	Unroll          int
 	Workers         int
 	Verbose         int
@@ -650,6 +652,14 @@ func (p *Path) record(o Obligation) {
 	e.mu.Unlock()
 	if o.Verdict == "sat" {
 		atomic.AddInt64(&e.violations, 1)
+		if o.Finding == "" {
+			// enough counterexamples for one harness: a failing check should report quickly (known findings never count)
+			if n := atomic.AddInt64(&e.untagged, 1); e.cfg.MaxViolations > 0 && n >= e.cfg.MaxViolations {
+				if atomic.CompareAndSwapInt32(&e.stop, 0, 1) {
+					e.note("limit", "violation limit reached; exploration of this harness stopped early")
+				}
+			}
+		}
 	}
 }
 
